@@ -3654,7 +3654,7 @@ def load_keypairs(
                     resolved_passphrase = _resolve_passphrase(passphrase,
                                                               key_prefix, loop)
 
-                    key = import_private_key(key_data, passphrase,
+                    key = import_private_key(key_data, resolved_passphrase,
                                              unsafe_skip_rsa_key_validation)
                     key.set_filename(key_prefix)
                 except KeyImportError as exc:
